@@ -153,6 +153,9 @@ def _run_prop(prop, tier, seed, replay, verdict, work, judge, design_run):
         if replay:
             tf = work.path("replay.ndjson")
             run_driver(binary, ["rules", "-replay", os.path.abspath(replay), "-trace", tf])
+            if prop == "C03" and os.path.basename(replay).startswith("C03-enc-"):
+                import functools
+                judge = functools.partial(_judge, module="EncodingTrace")
             v = judge(work, tf, "_replay")
             for b in v["bad"]:
                 print("VIOLATION property=%s replay=%s  # %s at line %d" % (prop, replay, b["why"], b["line"]))
@@ -224,6 +227,9 @@ def _run_prop(prop, tier, seed, replay, verdict, work, judge, design_run):
                 verdict.violation(path, "%s at event %d of the trace (%d events rejected): %s" % (
                     why, off, len(unknown), json.dumps(blk[off].get("req") or {"op": blk[off].get("kind")})))
 
+        if prop == "C03":
+            encoded_captures(work, verdict, binary, tier, seed)
+
         selftest = binding_selftest(work, lines, judge)
 
         probes = [ev for ev in lines if ev["ev"] == "probe"]
@@ -252,6 +258,58 @@ def _run_prop(prop, tier, seed, replay, verdict, work, judge, design_run):
         return verdict.finish()
     finally:
         work.close()
+
+
+def encoded_captures(work, verdict, binary, tier, seed):
+    """C03's clause on the exposed values ("exactly the matched path segments, percent-decoded, encoded
+    slashes only as the rule's setting permits") over raw paths with arbitrary percent-encoding: the
+    histories of the encoding profile (all encoded-slash settings, equivalent spellings, '%', '+',
+    reserved octets in captured segments) judged by EncodingTrace; only what concerns the captured
+    values counts here, everything else of that trace is C08's business."""
+    n = 200 if tier == "quick" else 6000
+    trace = work.path("enc_trace.ndjson")
+    base = ["rules", "-profile", "c08", "-n", n, "-seed", seed + 31]
+    log(run_driver(binary, base + ["-trace", trace]).strip())
+    lines = read_ndjson(trace)
+
+    def caps_only(rl, tag):
+        out = set()
+        for i, ch in enumerate(split_chunks(rl, 60000)):
+            path = work.path("enc_chunk%s_%d.ndjson" % (tag, i))
+            write_ndjson(path, ch)
+            v = _judge(work, path, "_enc%s_%d" % (tag, i), module="EncodingTrace")
+            out |= {(t, off, why) for t, off, why in locate(ch, v["bad"]) if "captures" in why}
+        return out
+
+    rejected = caps_only(lines, "")
+    confirmed = rejected
+    for i in range(2):
+        ids = sorted({t for t, _, _ in confirmed})
+        if not ids:
+            break
+        tf = work.path("enc_repro%d.ndjson" % i)
+        run_driver(binary, base + ["-trace", tf, "-only", ",".join(map(str, ids)), "-workers", 4])
+        confirmed = confirmed & caps_only(read_ndjson(tf), "_r%d" % i)
+    known = load_known("C03")
+    by_trace = {}
+    for t, off, why in sorted(confirmed):
+        by_trace.setdefault(t, []).append((off, why))
+    for t, items in by_trace.items():
+        blk = block(lines, t)
+        off, why = items[0]
+        k = match_known(known, facts_of(blk, off, why))
+        if k:
+            verdict.known_finding(k)
+            continue
+        path = save_replay("C03", "enc-trace%d-seed%d" % (t, seed), blk) if len(verdict.violations) < 20 else "(not saved)"
+        verdict.violation(path, "%s at event %d of the trace (%d events rejected): %s" % (
+            why, off, len(items), json.dumps(blk[off].get("req"))[:300]))
+    probes = [ev for ev in lines if ev["ev"] == "probe"]
+    verdict.coverage["encoded_captures"] = {
+        "histories": sum(1 for ev in lines if ev["ev"] == "reset"), "probes": len(probes),
+        "probes_with_captures": sum(1 for ev in probes if ev.get("hascaps")),
+        "rejected": len(rejected), "reproduced": len(confirmed), "judge": "EncodingTrace (captures only)",
+    }
 
 
 def split_chunks(lines, size):
